@@ -20,8 +20,8 @@ from .report import BrokenChecker
 VERIF = factsmod.VERIF
 
 CONTROLS = {
-    "C12": ["short_write", "dropped_error"],
-    "C13": ["short_read", "ok_swallow"],
+    "C12": ["short_write", "dropped_error", "fold_drops_error", "count_discards"],
+    "C13": ["short_read", "ok_swallow", "fold_drops_error"],
     "C07": ["tainted_mul", "unwrap"],
     "C17": ["tainted_alloc"],
     "C20": ["reorder"],
